@@ -47,4 +47,39 @@ def convertNumeric (v : Num) (t : NT) : Res Num :=
     | .f32 x => .ok (.f32 x)
     | _ => let y := toF32 (asF64 v); if sameNumber v y then .ok (.f32 y) else .rangeErr
 
+/-- the property text for structured arguments: built element-wise from exact numeric conversions; a number
+    given for a Go `string` parameter arrives as its JavaScript ToString; an array hole is `undefined` -/
+def leaf : Leaf := { num := convertNumeric, numStr := jsNumToString, holeIsUndefined := true, ptrAnyPanics := false }
+
+def convertCallParameter (v : JV) (t : GT) : Res GV := conv leaf v t
+
+/-- container writes use "the same checked conversion" as calls, and failures are script-visible errors,
+    never Go panics; `length` assignments act on the JavaScript object's view of the slice -/
+def store : StoreSem := { cv := convertCallParameter, setLenPanics := false }
+
+/-! ## struct field lookup: "by field name or json tag, unexported fields hidden, embedded structs searched
+    depth-first" – stated as a search over the flattened list of reachable (name, path) bindings -/
+
+def visible (name : Str) : Bool := match name with | [] => false | c :: _ => 65 ≤ c ∧ c ≤ 90
+
+mutual
+/-- all (key, path) bindings of a struct type in lookup order -/
+def bindingsT (t : GT) : List (Str × List Nat) :=
+  match t with
+  | .struct fs => bindingsF fs 0
+  | _ => []
+def bindingsF (fs : Fields) (i : Nat) : List (Str × List Nat) :=
+  match fs with
+  | .nil => []
+  | .cons fname tag anon ty rest =>
+    if !visible fname then bindingsF rest (i+1)
+    else
+      (if anon then (bindingsT ty).map (fun b => (b.1, i :: b.2)) else []) ++
+      (if tag = [45] then [] else ((if tag ≠ [] then [(tag, [i])] else []) ++ [(fname, [i])])) ++
+      bindingsF rest (i+1)
+end
+
+def fieldLookup (t : GT) (name : Str) : Option (List Nat) :=
+  ((bindingsT t.base).find? (fun b => b.1 = name)).map (·.2)
+
 end OttoVerif.C16.Spec
